@@ -20,14 +20,16 @@ class Opaque:
 class DigestSpec:
     """A literal digest value in a spec (built into a real DigestValue at run time)."""
 
-    def __init__(self, alg, secret, salt=None):
-        self.alg, self.secret, self.salt = alg, secret, salt
+    def __init__(self, alg, secret, salt=None, raw=False):
+        # raw: the digest value is built directly from (salt, hash(salt + secret)), whatever the salt's length (an imported
+        # hash); otherwise through DigestValue.create, which generates / trims the salt
+        self.alg, self.secret, self.salt, self.raw = alg, secret, salt, raw
 
     def __repr__(self):
         return "DigestSpec(%s, %r)" % (self.alg, self.secret)
 
     def __eq__(self, other):
-        return isinstance(other, DigestSpec) and (self.alg, self.secret, self.salt) == (other.alg, other.secret, other.salt)
+        return isinstance(other, DigestSpec) and (self.alg, self.secret, self.salt, self.raw) == (other.alg, other.secret, other.salt, other.raw)
 
     def __hash__(self):
         return hash((self.alg, self.secret))
@@ -89,7 +91,7 @@ def enc(v):
     if isinstance(v, Opaque):
         return {"$o": 1}
     if isinstance(v, DigestSpec):
-        return {"$digest": [v.alg, enc(v.secret), enc(v.salt)]}
+        return {"$digest": [v.alg, enc(v.secret), enc(v.salt)] + ([True] if v.raw else [])}
     if isinstance(v, complex):
         return {"$c": [v.real, v.imag]}
     return {"$repr": repr(v)[:200]}
@@ -120,7 +122,7 @@ def dec(v):
             if k == "$o":
                 return Opaque()
             if k == "$digest":
-                return DigestSpec(x[0], dec(x[1]), dec(x[2]))
+                return DigestSpec(x[0], dec(x[1]), dec(x[2]), raw=len(x) > 3 and bool(x[3]))
             if k == "$c":
                 return complex(*x)
             if k == "$repr":
